@@ -217,11 +217,11 @@ def exec_decompiled(src):
         """every builtin name resolves to an inert stub, created on first use"""
 
         def __missing__(self, n):
-            if n in real_names:
-                v = stub("builtins", n)
-                self[n] = v
-                return v
-            raise KeyError(n)
+            # any bare name denotes a builtins-family global (fickling emits no import for those), existing or not;
+            # a name whose import was dropped resolves here too and is then caught by the missing import event
+            v = stub("builtins", n)
+            self[n] = v
+            return v
 
     bi = LazyBuiltins()
     for n in ("True", "False", "None"):
